@@ -93,8 +93,8 @@ type Stream struct {
 	inMessage     bool   // True if currently decoding a multi-frame message
 
 	// Timeout settings (matches HTCondor's Stream timeout behavior)
-	timeout            time.Duration // Socket timeout duration (0 = no timeout)
-	cryptoBeforeSecret bool          // Saved encryption state before sending/receiving secret
+	timeout        time.Duration // Socket timeout duration (0 = no timeout)
+	secretCryptoOn bool          // True while prepareCryptoForSecret has switched encryption on for one secret
 }
 
 // CEDAR protocol constants based on HTCondor's reli_sock.cpp
@@ -1245,18 +1245,26 @@ func (s *Stream) SetCryptoMode(enabled bool) bool {
 
 // prepareCryptoForSecret prepares encryption state before sending/receiving a secret
 // Based on HTCondor's Stream::prepare_crypto_for_secret() from stream.cpp
+//
+// The toggle touches the stream's state only when it actually changes something (a
+// key exists and encryption is currently off). On an encrypting stream -- and on one
+// without a key -- it is a pure no-op, so a goroutine sending secrets does not write
+// the crypto mode that a second goroutine receiving on the same stream is reading.
 func (s *Stream) prepareCryptoForSecret() {
-	s.cryptoBeforeSecret = s.encrypted
 	// Enable encryption if available
 	if s.gcm != nil && !s.encrypted {
 		s.encrypted = true
+		s.secretCryptoOn = true
 	}
 }
 
 // restoreCryptoAfterSecret restores encryption state after sending/receiving a secret
 // Based on HTCondor's Stream::restore_crypto_after_secret() from stream.cpp
 func (s *Stream) restoreCryptoAfterSecret() {
-	s.encrypted = s.cryptoBeforeSecret
+	if s.secretCryptoOn {
+		s.encrypted = false
+		s.secretCryptoOn = false
+	}
 }
 
 // PrepareCryptoForSecret / RestoreCryptoAfterSecret expose the crypto-for-secret
